@@ -6,7 +6,10 @@ Resolver.exchange's retries per server (udp, udp, tcp; once more without EDNS on
 publication of the zone in Resolver.resolve / handleLookupError.  Every server plays a script chosen in Init, so TLC
 enumerates every server-behaviour vector: exhaustive for N <= 4 over the whole behaviour alphabet (N = 5 in thorough),
 with per-attempt scripts for N <= 3, a TLD-level and a kill-switch config, and a mutant config (the early exit
-without its parentheses) that must violate OnlyWhatFailed.
+without its parentheses) that must violate OnlyWhatFailed.  The behaviour alphabet includes the bogus (non-progressing)
+referral, whose resolutions end on the resolver's ERROR path (a question failure, no zone failure): the follow-up under the
+other CD value must not be answered by it (Containment; mutant config MUT_ZCD: the error-path reply filed under the CD value
+forced for the upstream walk).
 
 Binding (spec -> code): vectors sampled by TLC -simulate plus every "k failing fast, one healthy slow" corner
 (TLC's enumeration of the Init set of the corner configs) are played by authkit servers against the real full
@@ -35,7 +38,7 @@ def final(script, once=False):
         b = script[min(i, len(script) - 1)]
         if b in USEFUL:
             return "useful"
-        if b in ("servfail", "refused") or once:
+        if b in ("servfail", "refused", "badref") or once:
             return "failed"
         if b == "formerr":
             if not e:
@@ -59,7 +62,7 @@ def as_script(v):
 def model_check(ctx, thorough):
     # N <= 3: the whole behaviour alphabet; N = 4 (5): one representative per behaviour class of the model
     # ("slow" = "fast", "refused" = "servfail", "garbage" = "drop" step for step), the whole alphabet in thorough
-    cfgs = ["MC_Z1", "MC_Z2", "MC_Z3", "MC_Z4", "MC_ZRetry2", "MC_ZTld3", "MC_ZKill3", "MC_ZCorner4"]
+    cfgs = ["MC_Z1", "MC_Z2", "MC_Z3", "MC_Z4", "MC_ZRetry2", "MC_ZTld3", "MC_ZKill3", "MC_ZCorner4", "MC_ZCD2"]
     if thorough:
         cfgs += ["MC_Z4full", "MC_Z5", "MC_ZRetry3", "MC_ZCorner5"]
 
@@ -73,7 +76,15 @@ def model_check(ctx, thorough):
         if r.violated != "OnlyWhatFailed":
             raise vf.MachineryError("ZoneFail mutant config MUT_Z4 did not violate OnlyWhatFailed (violated=%r)" % r.violated)
         ctx.cov["replay"]["zone_model_mutant"] = {"cfg": "MUT_Z4", "violated": r.violated}
-    return [ZPOOL.submit(one, c) for c in cfgs] + [ZPOOL.submit(mutant)]
+
+    def mutant_cd():
+        # ... and the error-path reply filed under the forced CD value: the other-CD follow-up is answered by it
+        r = ctx.tlc(MOD, SPEC, "MUT_ZCD.cfg", workers=1, timeout=600, heap="2g", deadlock=False, must_pass=False,
+                    tag="mutant", count=False)
+        if r.violated != "Containment":
+            raise vf.MachineryError("ZoneFail mutant config MUT_ZCD did not violate Containment (violated=%r)" % r.violated)
+        ctx.cov["replay"]["zone_model_mutant_cd"] = {"cfg": "MUT_ZCD", "violated": r.violated}
+    return [ZPOOL.submit(one, c) for c in cfgs] + [ZPOOL.submit(mutant), ZPOOL.submit(mutant_cd)]
 
 
 def sim_vectors(ctx, n, num):
@@ -124,6 +135,12 @@ def directed():
     out.append({"id": "AllFail2/drop", "script": [["drop"], ["garbage"]], "pred": "netfail", "src": "directed"})
     out.append({"id": "AllFail3/mixed", "script": [["drop"], ["servfail"], ["garbage", "drop", "refused"]], "pred": "rcodefail",
                 "src": "directed"})
+    # resolutions that end on the resolver's ERROR path (a bogus referral is all that came back): a question failure and
+    # nothing for the zone; the CD = 1 follow-up of these is where "exactly that CD value" is judged
+    for n in (1, 2, 3):
+        out.append({"id": "BadRef%d" % n, "script": [["badref"]] * n, "pred": "badref", "src": "directed"})
+    out.append({"id": "BadRef2/garbage", "script": [["badref"], ["garbage"]], "pred": "badref", "src": "directed"})
+    out.append({"id": "BadRef2/late", "script": [["garbage", "badref"], ["badref"]], "pred": "badref", "src": "directed"})
     out.append({"id": "Late3/tcp", "script": [["drop", "drop", "fast"], ["refused"], ["servfail"]], "pred": "answer", "src": "directed"})
     out.append({"id": "Late4/formerr", "script": [["formerr", "slow"], ["refused"], ["servfail"], ["formerr"]], "pred": "answer",
                 "src": "directed"})
@@ -177,7 +194,7 @@ def conclude(ctx, res, cases, mc):
         # vacuity: zone failures must have been served, healthy-slow corners must have been played, all behaviours seen
         need = ["zone_failure_served", "question_failure_served", "q1_some_server_healthy", "played_slow", "played_drop",
                 "played_garbage", "played_formerr", "played_refused", "played_servfail", "played_nxdomain", "played_over_tcp",
-                "cases_off", "n4", "n5"]
+                "cases_off", "n4", "n5", "played_badref", "cd_followups", "cd_partition_seen", "cd_zone_failure_covers_both"]
         missing = [k for k in need if not cnt.get(k)]
         if missing:
             raise vf.MachineryError("zone-failure pipeline replay is vacuous: %s missing in %s" % (missing, cnt))
@@ -195,8 +212,11 @@ ASSUMPTIONS = [
     "left its server more than 400 ms late is not judged; a flagged case is re-run alone on fresh zones and only a reproduced "
     "predicate failure is reported" % (SLOW_MS, UP_TIMEOUT_MS, QUERY_TIMEOUT_MS),
     "zone tier: 'healthy' = an attempt that reached the server was scripted to get a usable answer (NOERROR / NXDOMAIN), or "
-    "the server was never asked and its script starts with one; circuit breaker, exploration probes and request-local exits "
-    "are outside ZoneFail.tla",
+    "the server was never asked and its script starts with one; a bogus (non-progressing) referral is neither (the resolution "
+    "ends on the error path: a question failure, nothing for the zone); the circuit breaker and request-local exits across a "
+    "history of request trees are ZoneBrk.tla's (checks/x13zb.py), not ZoneFail.tla's",
+    "zone tier: the CD = 1 follow-up is judged against the sibling asked right after it: a cached failure served to a CD value "
+    "nobody failed under is legal only while a zone failure is being served",
 ]
 
 
